@@ -174,6 +174,11 @@ def tps (c : Case) : Verdict :=
       | some raws, some bytes =>
         if raws.length ≠ ps.length then .diff tag "raw-count" else
         -- (1) each parameter reports what the typed model says
+        -- a caller-supplied GREASE value that is not the value put on the wire is a lossless-encoding
+        -- failure with this case as the failing input (not merely a model/code difference)
+        if (ps.zip raws).any (fun (p, r) => match p with
+            | .inr (_, some v, _) => r.value != v
+            | _ => false) then .propFail tag "grease-value-override-not-emitted" else
         if ¬ eachOk ps raws then .diff tag "typed-parameter-id/value" else
         -- (2) Marshal = model on the reported list; (3) monitor: the bytes parse back to the list
         if parseTPs bytes ≠ some raws then .propFail tag "marshal-parses-back-to-list"
